@@ -135,8 +135,25 @@ class BuildResult:
         return p.read_text() if p.exists() else ''
 
 
-def build(targets, jobs=16):
+def build(targets, jobs=16, _retry=True):
     """Build the cones of `targets` (paths relative to coq/, e.g. props/C01.v)."""
+    res = _build(targets, jobs)
+    if (not res.ok and _retry and
+            any('inconsistent assumptions' in tail or 'Can\'t open' in tail or 'Bad magic' in tail for _, tail in res.failed)):
+        # a .vo of the cone was produced by a concurrent run against other generated files: rebuild the cone once
+        for f in res.files:
+            for ext in ('o', 'o.stamp'):
+                q = COQ / (f + ext)
+                if q.exists():
+                    try:
+                        q.unlink()
+                    except OSError:
+                        pass
+        res = _build(targets, jobs)
+    return res
+
+
+def _build(targets, jobs=16):
     t0 = time.time()
     write_coqproject()
     deps = coqdep()
